@@ -119,8 +119,10 @@ func parseHead(data []byte, m *Msg) (int, error) {
 		if len(parts[1]) != 3 {
 			return 0, fmt.Errorf("bad status code in %q", sl)
 		}
+		// status-code = 3DIGIT (RFC 9112): codes outside 100-599 are semantically invalid (a client treats them as 5xx)
+		// but the message that carries one is well-formed
 		n, err := strconv.Atoi(parts[1])
-		if err != nil || n < 100 {
+		if err != nil || strings.Trim(parts[1], "0123456789") != "" {
 			return 0, fmt.Errorf("bad status code in %q", sl)
 		}
 		m.Status = n
